@@ -49,6 +49,8 @@ MC_CONFIGS = {
     "canary_fail_t": mc("MC_canary", "SpecCanary", strat="MC_StratFailFast", env=1, edit=1, ann=1, agecap=2),
     "fine_q": mc("MC_canary", "SpecFine", strat="MC_StratFailFast", env=1, edit=1, ann=0, agecap=2, kinds='{"restart"}', fault=1),
     "fine_t": mc("MC_canary", "SpecFine", strat="MC_StratFailFast", env=1, edit=2, ann=1, agecap=2, kinds='{"restart", "fail"}', fault=2),
+    "canary_narrow_t": mc("MC_canary", "SpecCanary", env=1, edit=1, ann=0, agecap=2, kinds='{"narrow", "lost"}'),
+    "rollout_lost_t": mc("MC_rollout", "Spec", env=1, edit=1, ann=0, kinds='{"lost", "fail", "dup"}'),
     "canary_manual_q": mc("MC_canary", "SpecCanary", strat="MC_StratManual", env=0, edit=1, ann=1, agecap=1),
 }
 
@@ -70,9 +72,9 @@ LIVE = {
 
 # property -> {tier: [(config name, [M_ properties], [invariants])]}
 MC = {
-    "C01": {"quick": [("rollout_q", ["M_C01"], ["TypeOK"])], "thorough": [("rollout_t", ["M_C01"], ["TypeOK"]), ("canary_t", ["M_C01"], [])]},
+    "C01": {"quick": [("rollout_q", ["M_C01"], ["TypeOK"])], "thorough": [("rollout_t", ["M_C01"], ["TypeOK"]), ("canary_t", ["M_C01"], []), ("rollout_lost_t", ["M_C01", "M_C03"], [])]},
     "C03": {"quick": [("rollout_q", ["M_C03"], [])], "thorough": [("rollout_t", ["M_C03"], []), ("rollout_mu2_t", ["M_C03"], [])]},
-    "C04": {"quick": [("canary_q", ["M_C04"], [])], "thorough": [("canary_t", ["M_C04"], [])]},
+    "C04": {"quick": [("canary_q", ["M_C04"], [])], "thorough": [("canary_t", ["M_C04"], []), ("canary_narrow_t", ["M_C04", "M_C01", "M_C03"], [])]},
     "C05": {"quick": [("canary_q", ["M_C05"], [])], "thorough": [("canary_t", ["M_C05"], []), ("canary_manual_q", ["M_C05"], [])]},
     "C06": {"quick": [("canary_q", ["M_C06"], [])], "thorough": [("canary_t", ["M_C06"], [])]},
     "C11": {"quick": [("fine_q", ["M_C05", "M_C13"], ["TypeOK", "I_Rollback", "HalfDoneIsVisible"])], "thorough": [("fine_t", ["M_C05", "M_C13", "M_C04"], ["TypeOK", "I_Rollback", "HalfDoneIsVisible"])]},
